@@ -21,6 +21,11 @@ CURVES = {
     # syn1 with ONE force sample changed / with only the time column changed
     "syn1x": ("synth", dict(n_app=300, noise=2e-11, seed=3, perturb="force")),
     "syn1t": ("synth", dict(n_app=300, noise=2e-11, seed=3, perturb="time")),
+    # recorded curves of bad quality: contact-point fits can end up outside
+    # of the data
+    "bad1": ("recorded", "fmt-jpk-fd_single_bad_2017-01-16_1.jpk-force"),
+    "bad2": ("recorded", "fmt-jpk-fd_single_bad_2017-01-16_2.jpk-force"),
+    "bad5": ("recorded", "fmt-jpk-fd_single_bad_2017-01-16_5.jpk-force"),
 }
 
 
@@ -131,7 +136,8 @@ def random_history(rng, length, weights=None):
         if kind == "apply":
             p = rng.choice(pipes if rng.random() < .35 else valid)
             hist.append({"op": "apply", "pipe": p,
-                         "via": "obj" if rng.random() < .15 else "fresh"})
+                         "via": rng.choices(["obj", "fresh", "details"],
+                                            [.15, .65, .2])[0]})
             if hist[-1]["via"] == "obj":
                 hist.insert(-1, {"op": "mutate_pl", "pipe": p})
         elif kind == "fit":
